@@ -40,6 +40,10 @@ UNSUPPORTED = {
     "range": "range(3)",
     "type": "int",
     "func": "len",
+    "bytessub": "_BytesSub(b'x')",
+    "floatsub": "_FloatSub(1.5)",
+    "frozensetsub": "_FrozensetSub([1])",
+    "strenum": "_StrEnum.A",
     "named_int": "_named_int(7)",  # a user class *named* 'int' deriving from int
     "named_list": "_named_list([1])",
 }
@@ -50,6 +54,12 @@ class _StrSub(str): pass
 class _ListSub(list): pass
 class _DictSub(dict): pass
 class _TupleSub(tuple): pass
+class _BytesSub(bytes): pass
+class _FloatSub(float): pass
+class _FrozensetSub(frozenset): pass
+import enum as _enum
+class _StrEnum(str, _enum.Enum):
+    A = "a"
 _named_int = type("int", (int,), {})
 _named_list = type("list", (list,), {})
 '''
@@ -183,3 +193,5 @@ def dicts1(keys=KEYCAT, values=LEAVES) -> list:
         for b in values:
             out.append(("D", [(a, b)]))
     return out
+
+HASHABLE_UNSUPPORTED = ["object", "intsub", "strsub", "tuplesub", "bytessub", "floatsub", "frozensetsub", "strenum", "named_int", "type", "func"]
